@@ -50,6 +50,7 @@ def run(rep, idx, tier):
     rep.require("C19.7", 10)
     rep.require("C19.8", 1)
     rep.require("C19.9", 1)
+    rep.require("C19.12", 25)
     rules(rep, idx, fixture=False)
     # positive fixture: the same rules must flag the committed bad example on every run
     fx = Index(os.path.join(os.path.dirname(os.path.dirname(os.path.abspath(__file__))), "fixtures", "c19"))
@@ -97,6 +98,9 @@ def rules(rep, idx, fixture):
     shared_state(rep, idx)
     late_binding(rep, idx)
     identity_comparisons(rep, idx)
+    if not fixture:
+        from . import glue as _glue
+        _glue.param_refusals(rep, "C19.12", idx)
 
 
 # ---- C19.9 no object shared between calls / instances by accident ------------------------------------------
